@@ -1340,6 +1340,11 @@ func (p *Parser) evaluateParams(ctx context) ([]Variable, error) {
 		if exists {
 			return params, fmt.Errorf("scope already contains a variable with the name %s", name)
 		}
+
+		// Make sure the parameter name is not used by a previous parameter.
+		if slices.ContainsFunc(params, func(param Variable) bool { return param.Name() == name }) {
+			return params, p.atError(fmt.Sprintf("parameter %s has already been defined", name), nameToken)
+		}
 		valueType, err := p.evaluateValueType()
 
 		if err != nil {
@@ -1811,6 +1816,10 @@ func (p *Parser) evaluateFor(ctx context) (Statement, error) {
 				return nil, err
 			}
 			valueVarName = nextToken.Value()
+
+			if valueVarName == indexVarName {
+				return nil, p.atError(fmt.Sprintf("variable %s has already been defined", valueVarName), nextToken)
+			}
 		}
 		nextToken = p.eat()
 		hasNamedVar := len(valueVarName) > 0
